@@ -554,6 +554,55 @@ Proof.
   exists b. split; [exact Hin|]. apply negb_true_iff, N.eqb_neq in Hb. exact Hb.
 Qed.
 
+(* num.Uint.UnmarshalCBOR: 0 <= value < modulus, for a top-level Uint and — through the same
+   rule 41 of every generic / shallow type — for every Uint-shaped sub-item of an accepted value *)
+Lemma leaves_ok_here fuel x :
+  fst (leaves_ok (S fuel) x) = true ->
+  forall v m, uint_leaf x = Some (v, m) -> be_value v < be_value m.
+Proof.
+  cbn [leaves_ok]. cbv zeta. cbn [fst]. intros H v m E. rewrite E in H.
+  apply andb_true_iff in H. destruct H as [H _]. apply N.ltb_lt. exact H.
+Qed.
+
+Lemma leaves_ok_sub fuel x :
+  fst (leaves_ok (S fuel) x) = true ->
+  (forall l, x = Arr l -> forall y, In y l -> fst (leaves_ok fuel y) = true) /\
+  (forall ps, x = Map ps -> forall k y, In (k, y) ps -> fst (leaves_ok fuel y) = true) /\
+  (forall t y, x = Tag t y -> fst (leaves_ok fuel y) = true).
+Proof.
+  cbn [leaves_ok]. cbv zeta. cbn [fst]. intros H.
+  apply andb_true_iff in H. destruct H as [_ H].
+  split; [|split].
+  - intros l -> y Hin. rewrite forallb_forall in H. apply H. apply in_map. exact Hin.
+  - intros ps -> k y Hin. rewrite forallb_forall in H.
+    apply (H (leaves_ok fuel y)). change (leaves_ok fuel y) with ((fun kv : item * item => leaves_ok fuel (snd kv)) (k, y)).
+    apply in_map. exact Hin.
+  - intros t y ->. cbn [map forallb] in H. apply andb_true_iff in H. tauto.
+Qed.
+
+Theorem uint_valid_spec : forall x,
+  valid TUint x = true ->
+  forall v m, uint_leaf x = Some (v, m) -> be_value v < be_value m.
+Proof.
+  intros x H. unfold valid in H. cbn [rules_of] in H. unfold leaf_rules in H.
+  cbn [forallb snd] in H. apply andb_true_iff in H. destruct H as [H _].
+  exact (leaves_ok_here 39 x H).
+Qed.
+
+(* the same for types the model knows only generically: a Uint anywhere directly below the top *)
+Theorem generic_uint_leaves_spec : forall x,
+  valid TGeneric x = true ->
+  (forall v m, uint_leaf x = Some (v, m) -> be_value v < be_value m) /\
+  (forall ps k y v m, x = Map ps -> In (k, y) ps -> uint_leaf y = Some (v, m) -> be_value v < be_value m).
+Proof.
+  intros x H. unfold valid in H. cbn [rules_of] in H. unfold leaf_rules in H.
+  cbn [forallb snd] in H. apply andb_true_iff in H. destruct H as [H _].
+  split; [exact (leaves_ok_here 39 x H)|].
+  intros ps k y v m -> Hin E.
+  destruct (leaves_ok_sub 39 (Map ps) H) as [_ [Hm _]].
+  exact (leaves_ok_here 38 y (Hm ps eq_refl k y Hin) v m E).
+Qed.
+
 (* ------------------------------------------------------------------ *)
 (* the field lists of the hand-written schemas are exactly the wire field names (and omitempty
    flags) of the DTO structs as regenerated from the source (gen/SerdeDtos.v) *)
@@ -607,6 +656,9 @@ Definition dto_table : list (schema * list (bytes * bool)) :=
     (schema_of TInt, dto_num_int);
     (s_field k_int (schema_of TInt), dto_numct_int);
     (schema_of TNatPlus, dto_num_natplus);
+    (schema_of TUint, dto_num_uint);
+    (s_field k_modulus (schema_of TUint), dto_numct_modulus);
+    (s_field k_value (schema_of TUint), dto_numct_nat);
     (schema_of (TScalar no_curve), dto_k256_scalar);
     (schema_of (TScalar no_curve), dto_p256_scalar);
     (schema_of (TScalar no_curve), dto_bls12381_scalar);
